@@ -52,7 +52,7 @@ func mk02(kind string, dial func() *fakeConn) (xchg02, func()) {
 
 func runC02(r *Run) {
 	kinds := []string{"tdc-udp", "tdc-tcp", "pipeline-tcp", "pipeline-udp", "reuse"}
-	scens := []string{"during-send", "during-send+eof", "parked+eof", "parked", "burst-during-send", "parked-after-resend"}
+	scens := []string{"during-send", "during-send+eof", "parked+eof", "parked", "burst-during-send", "parked-after-resend", "during-send+eof-same-read", "parked+eof-same-read"}
 	reps := r.N(12, 150)
 	connID := 0
 	for _, kind := range kinds {
@@ -62,6 +62,9 @@ func runC02(r *Run) {
 				continue // one query per connection at a time
 			}
 			nrep := reps
+			if (sc == "during-send+eof-same-read" || sc == "parked+eof-same-read") && !stream {
+				continue // a datagram read returns one whole message or an error
+			}
 			if sc == "parked-after-resend" {
 				if stream {
 					continue // only datagram connections retransmit
@@ -71,13 +74,17 @@ func runC02(r *Run) {
 			for rep := 0; rep < nrep; rep++ {
 				var mu sync.Mutex
 				var conns []*fakeConn
-				withEOF := sc == "during-send+eof" || sc == "parked+eof"
-				parked := sc == "parked+eof" || sc == "parked"
+				// "-same-read": the Read call that returns the last bytes of the reply also returns io.EOF (n > 0 and an
+				// error in one call, which io.Reader allows and crypto/tls does when close_notify follows the data)
+				sameRead := sc == "during-send+eof-same-read" || sc == "parked+eof-same-read"
+				withEOF := sc == "during-send+eof" || sc == "parked+eof" || sameRead
+				parked := sc == "parked+eof" || sc == "parked" || sc == "parked+eof-same-read"
 				afterResend := sc == "parked-after-resend"
 				var firstWrite sync.Once
 				dial := func() *fakeConn {
 					connID++
 					c := newFakeConn(connID, stream)
+					c.errWithData = sameRead
 					c.onWrite = func(c *fakeConn, w []byte) error {
 						q := c.payloadOf(w)
 						if len(q) < 12 {
@@ -170,12 +177,14 @@ func runC02(r *Run) {
 						r.Fail("the exchange returned the reply only after a retransmission / long wait although it had arrived at once", desc)
 					}
 					labels := map[string]string{
-						"during-send":         "readerDeliver,writeReturns,pickReply",
-						"burst-during-send":   "readerDeliver,writeReturns,pickReply",
-						"during-send+eof":     "readerDeliver,readerClose,writeReturns,pickClose",
-						"parked":              "writeReturns,readerDeliver,pickReply",
-						"parked+eof":          "writeReturns,readerDeliver,readerClose,pickClose",
-						"parked-after-resend": "writeReturns,readerDeliver,pickReply",
+						"during-send":               "readerDeliver,writeReturns,pickReply",
+						"burst-during-send":         "readerDeliver,writeReturns,pickReply",
+						"during-send+eof":           "readerDeliver,readerClose,writeReturns,pickClose",
+						"parked":                    "writeReturns,readerDeliver,pickReply",
+						"parked+eof":                "writeReturns,readerDeliver,readerClose,pickClose",
+						"parked-after-resend":       "writeReturns,readerDeliver,pickReply",
+						"during-send+eof-same-read": "readerDeliver,readerClose,writeReturns,pickClose",
+						"parked+eof-same-read":      "writeReturns,readerDeliver,readerClose,pickClose",
 					}[sc]
 					r.Line("sched 1 1 "+labels, out)
 					r.Eval(fmt.Sprintf("%s/%s/%d/%d", kind, sc, rep, i), true)
@@ -185,5 +194,64 @@ func runC02(r *Run) {
 			}
 		}
 	}
-	r.Finish("transports {TraditionalDnsConn datagram / stream, PipelineTransport datagram / stream, ReuseConnTransport} x arrival {inside Write (Write returns after the reader consumed it), inside Write followed by EOF, after the caller parked, after parked followed at once by EOF, 2..7 concurrent callers each inside Write} x repetitions; every case is non-trivial; each is replayed on the model as the schedule it enforces")
+	// ---- a slow (but in time) reply after the reader went round its loop for a reply nobody waits for: the reader's
+	// SetReadDeadline call is held at its entry while a caller enqueues, writes and arms the waiting-for-reply
+	// deadline (possible only if the reader decides under its lock but applies the deadline outside it); the reply
+	// comes 0.7 s later, after the (short) idle timeout but far inside the 10 s reply timeout and the caller's deadline.
+	for _, stream := range []bool{false, true} {
+		for rep := 0; rep < r.N(1, 4); rep++ {
+			connID++
+			c := newFakeConn(connID, stream)
+			dc := transport.NewDnsConn(transport.TraditionalDnsConnOpts{WithLengthHeader: stream, IdleTimeout: 300 * time.Millisecond, MaxConcurrentQuery: 64}, c)
+			c.waitDrained(2 * time.Second)
+			entered := c.armGate(100 * time.Millisecond)
+			c.feed(c.frame(mkReply(mkQuery(0, 424242), 54321)))
+			select {
+			case <-entered:
+			case <-time.After(2 * time.Second):
+			}
+			c.onWrite = func(c *fakeConn, w []byte) error {
+				q := c.payloadOf(w)
+				if len(q) < 12 {
+					return nil
+				}
+				reply := c.frame(mkReply(q, binary.BigEndian.Uint16(q)))
+				go func() {
+					time.Sleep(700 * time.Millisecond)
+					c.feed(reply)
+				}()
+				return nil
+			}
+			id := uint16(r.Seed) + uint16(rep*31)
+			q := mkQuery(id, 77000+rep)
+			ctx, cancel := context.WithTimeout(context.Background(), 2500*time.Millisecond)
+			t0 := time.Now()
+			var resp *[]byte
+			var err error
+			if rec, closed := dc.ReserveNewQuery(); rec == nil {
+				err = fmt.Errorf("cannot reserve (closed=%v)", closed)
+			} else {
+				resp, err = rec.ExchangeReserved(ctx, q)
+			}
+			cancel()
+			took := time.Since(t0)
+			dc.Close()
+			kind := map[bool]string{false: "tdc-udp", true: "tdc-tcp"}[stream]
+			desc := map[string]any{"transport": kind, "scenario": "slow-reply-after-reader-loop (idle timeout 0.3 s, reply after 0.7 s, caller deadline 2.5 s)", "repetition": rep, "took": took.String(), "err": fmt.Sprint(err)}
+			out := "reply"
+			switch {
+			case err != nil || resp == nil:
+				out = "error:" + fmt.Sprint(err)
+				r.Fail("the server answered an outstanding query well before the caller's deadline and the reply timeout, but the exchange failed (the connection was dropped under the idle timeout while a query was unanswered)", desc)
+			case !bytes.Equal(*resp, mkReply(q, id)):
+				out = "foreign-reply"
+				r.Fail("the exchange returned something other than the reply to its own query", desc)
+			}
+			r.Line("sched 1 1 writeReturns,readerDeliver,pickReply", out)
+			r.Eval(fmt.Sprintf("%s/slow-reply-after-reader-loop/%d", kind, rep), true)
+			r.Count(kind + ":slow-reply-after-reader-loop")
+			r.Trace()
+		}
+	}
+	r.Finish("transports {TraditionalDnsConn datagram / stream, PipelineTransport datagram / stream, ReuseConnTransport} x arrival {inside Write (Write returns after the reader consumed it), inside Write followed by EOF, after the caller parked, after parked followed at once by EOF, the same two with EOF returned by the very Read call that returns the last bytes of the reply (stream connections), 2..7 concurrent callers each inside Write, a reply 0.7 s after the query while the reader's deadline update was held back (idle timeout 0.3 s)} x repetitions; every case is non-trivial; each is replayed on the model as the schedule it enforces")
 }
